@@ -31,6 +31,7 @@ declare -A PROP=(
  ["wrap guards the stream's close error"]="C11"
  ["open/close PullPositions lists positions"]="C14"
  ["wrap ends a call whose context is already done"]="C13"
+ ["electric models no longer share one default random"]="C11"
 )
 git -C /repo log --format='%h %s' | grep ' fix: ' | while read -r h subj; do
   prop=""
